@@ -1,17 +1,7 @@
 #!/bin/sh
 # Build the framework from files on disk only (offline): hooked delta, generated tables,
-# all Lean models/proofs, all model drivers.
+# the Lean theorems and model drivers of every claimed check.
 set -e
 cd "$(dirname "$0")"
 export CARGO_NET_OFFLINE=true
-mkdir -p .build
-(cd /repo && RUSTFLAGS="--cfg dandavison_delta_verif --check-cfg cfg(dandavison_delta_verif) -Awarnings" \
-  CARGO_TARGET_DIR=/verif/.build/target cargo build --offline --quiet)
-python3 tools/extract.py /repo lean/DeltaModel/Generated
-cd lean
-lake build
-for exe in $(sed -n 's/^name = "\(drv_.*\)"/\1/p' lakefile.toml); do
-  root=$(grep -A1 "^name = \"$exe\"" lakefile.toml | sed -n 's/^root = "\(.*\)"/\1/p' | tr . /)
-  [ -f "$root.lean" ] && exes="$exes $exe"
-done
-[ -z "$exes" ] || lake build $exes
+exec python3 tools/setup_build.py
